@@ -7,7 +7,7 @@ import (
 
 	"gonum.org/v1/gonum/mathext/prng"
 
-	"verif/harness/internal/core"
+	"gonum.org/v1/gonum/verifharness/internal/core"
 )
 
 func init() {
